@@ -97,6 +97,8 @@ static void run(Ctx& c) {
     g_levelOf.assign(size_t(n + 1), 0);
     for (int i = 1; i <= n; i++) g_levelOf[size_t(f->getVarByLevel(i))] = i;
     std::vector<Val> alpha = alphabet(r, fs, true, false, true);   // includes values below the terminal precision (known class for rel/MT/real/IR)
+    // EV*: doubles that are non-zero but underflow to 0 in single precision (edge values are floats) are the value 0
+    if (fs.isEVT() && r.chance(1, 3)) { static const double UF[] = {1e-60, 1e-46, 4.9e-324}; alpha.push_back(Val::re(UF[r.below(3)])); c.count("cases_with_underflowing_evtimes_values"); }
     std::string sampleOps;
     uint64_t sig = 0;
     int nsub = r.range(3, 8);
